@@ -380,6 +380,7 @@ func runSchedule(c *xs.Ctx, r *xs.Result, cfi int, gv *genesisVariant, h history
 	upTo := rc.lastTick()
 	want, active := refObs(rc, upTo)
 	r.Count("schedule_histories", 1)
+	r.Sample(map[string]interface{}{"part": "schedule", "genesis": gv.Name, "history": h.Name})
 	r.Count("schedule_momentums", int64(len(b.chain)))
 	r.Count("schedule_weight_order_changes", int64(b.changes))
 	for _, s := range rc.snaps {
